@@ -26,7 +26,7 @@ def site_lines():
 
 
 SCENARIOS = ['main-edit-with-dir-override', 'dir-edit', 'permissive-default-rule', 'deprecated-defaults',
-             'dir-edit-no-overwrite', 'deprecated-main-emptied']
+             'dir-edit-no-overwrite', 'deprecated-main-emptied', 'deprecated-dir-override-edit', 'two-dirs-later-edit']
 
 
 def build(scn, root):
@@ -66,6 +66,24 @@ def build(scn, root):
 
         def change():
             fs.write_main({}, 'json')
+    elif scn == 'deprecated-dir-override-edit':
+        # the operator's override of a deprecated name lives in a directory file and is edited there
+        defaults = [('reg:a', 'role:new_a', ('old:a', 'role:old_a'), None),
+                    ('reg:b', 'role:new_b', ('reg:b', 'role:old_b'), None)]
+        kw['enforce_new_defaults'] = False
+        fs.write_main({'p': 'role:main_old'}, 'json')
+        fs.write('policy.d', 'o.yaml', {'old:a': 'rule:q', 'q': 'role:dir_old'}, 'json')
+
+        def change():
+            fs.write('policy.d', 'o.yaml', {'old:a': 'role:dir_new', 'q': 'role:main_q'}, 'json')
+    elif scn == 'two-dirs-later-edit':
+        # two existing directories; only a file of the LATER one is edited
+        fs.write_main({'p': 'role:main', 'q': 'role:main_q'}, 'json')
+        fs.write('policy.d', 'o.yaml', {'p': 'role:dir'}, 'json')
+        fs.write('second.d', 'z.yaml', {'q': 'role:dir_old'}, 'json')
+
+        def change():
+            fs.write('second.d', 'z.yaml', {'q': 'role:dir_new'}, 'json')
     elif scn == 'permissive-default-rule':
         fs.write_main({'default': '@', 'p': 'role:main_old'}, 'json')
 
